@@ -21,6 +21,12 @@ OPEN = [
      'F36 (egg variant): stale bytecode in the egg ends the search', 'same construct as PyFileSearcher, zipped-egg branch'),
     ('C10', 'C10.R3', 'PyPackageSearcher.fileExists/stale-candidate-ends-search(SOURCE_SUFFIXES)',
      'F36 (egg variant): a stale source under one suffix ends the search', 'same construct, zipped-egg branch'),
+    ('C02', 'C02.R3', 'untagged-tuple@objectTypeClause[8]',
+     'F38: an object reference written as name(number) or as a number (AUGMENTS { ifEntry(1) }, OBJECTS { 5 }) '
+     'reaches the code generators as a tuple/int: AUGMENTS makes prepData raise KeyError, list positions make '
+     'transOpers raise AttributeError - foreign exceptions escape compile(); not repaired: seven sibling actions '
+     '(Entry, Index, Object, Notification, VarType, MandatoryGroup, ComplianceGroup) need a semantic decision',
+     'compile() of `e OBJECT-TYPE ... AUGMENTS { ifEntry(1) } ::= { root 1 }` raises KeyError("ifEntry")'),
 ]
 
 # (property, commit, what failed, rule that reports it on the pre-fix tree)
@@ -48,6 +54,8 @@ FIXED = [
     ('C17', '387569b', 'F28 INDEX { 0 } parsed differently with supportIndex', 'C17.R2'),
     ('C07', 'e885599', 'F30 a source text without any module dropped the requested name from the result', 'C07.R4b'),
     ('C11', 'fb9f725', 'F33 a decimal literal longer than 4300 digits made t_NUMBER raise ValueError', 'C11.R7'),
+    ('C05', 'd5fde45', 'F34 DEFVAL { 0 } dropped by a truthiness test in p_DefValPart', 'C02.R1'),
+    ('C02', '7a6965a', 'F39 compliance list actions skipped a GROUP whose identifier is the number 0', 'C02.R1'),
     ('C10', '121bb88', 'F35 noDeps excluded a requested module served from a differently named file', 'C10.R2'),
 ]
 
